@@ -11,17 +11,12 @@ import (
 	"golang.org/x/tools/go/ssa"
 )
 
-// dumpRule (O6 / V4b): the error path reports every context from the failing
-// one up to the root and resets the *main* context: memory, ip at the end of
-// the code, children cleared.
-func (r *ruler) dumpRule() {
+// dumpWorld builds the symbolic machine dumpStack is evaluated on: a VM whose
+// main context is MAIN, and a failing context CTX whose parent PARENT is a
+// child of MAIN; every other field is a named unknown.
+func (r *ruler) dumpWorld(in *absint.Interp) (vmCell, ctx, mainc *absint.Cell) {
 	m := r.m
-	p := m.P
 	fn := m.Dump
-	pos := p.Pos(fn.Pos())
-	o := &absint.Oracle{}
-	in := absint.NewInterp(p.SSA, o)
-	in.MaxStep = 50000
 	ctxPtrT := m.VarOf["ctxp"].Type()
 	ctxNamed := ctxPtrT.Underlying().(*types.Pointer).Elem()
 	memT := m.VarOf["m"].Type()
@@ -45,9 +40,9 @@ func (r *ruler) dumpRule() {
 		cells[tag] = c
 		return c
 	}
-	mainc := mk("MAIN", absint.Const{T: ctxPtrT})
+	mainc = mk("MAIN", absint.Const{T: ctxPtrT})
 	parent := mk("PARENT", &absint.Ptr{Cell: mainc})
-	ctx := mk("CTX", &absint.Ptr{Cell: parent})
+	ctx = mk("CTX", &absint.Ptr{Cell: parent})
 	vmT := fn.Params[0].Type().Underlying().(*types.Pointer).Elem()
 	vst := vmT.Underlying().(*types.Struct)
 	vz := absint.Zero(vmT).(*absint.Struct)
@@ -65,10 +60,32 @@ func (r *ruler) dumpRule() {
 			vf[i] = &absint.Struct{T: fl.Type(), F: cf}
 		}
 	}
-	vmCell := in.NewCell(&absint.Struct{T: vmT, F: vf}, "VM")
+	vmCell = in.NewCell(&absint.Struct{T: vmT, F: vf}, "VM")
+	return vmCell, ctx, mainc
+}
+
+// dumpRule (O6 / V4b): the error path reports every context from the failing
+// one up to the root and resets the *main* context: memory, ip at the end of
+// the code, children cleared.
+func (r *ruler) dumpRule() {
+	m := r.m
+	p := m.P
+	fn := m.Dump
+	pos := p.Pos(fn.Pos())
+	o := &absint.Oracle{}
+	in := absint.NewInterp(p.SSA, o)
+	in.MaxStep = 50000
+	vmCell, ctx, mainc := r.dumpWorld(in)
 	var evs []string
+	// loops over symbolic data (the instruction window) are evaluated at one
+	// symbolic position; loops in callees over unknown slices run once
+	lsym := &absint.LoopSym{Fn: fn}
+	in.Hooks.Instr = lsym.OnInstr
 	loops := map[string]int{}
 	in.Hooks.Branch = func(in *absint.Interp, cond absint.Val, site ssa.Instruction) (bool, bool) {
+		if site != nil && site.Parent() == fn {
+			return lsym.OnBranch(in, cond, site)
+		}
 		if site != nil && site.Block() != nil && strings.HasPrefix(site.Block().Comment, "rangeindex") {
 			k := fmt.Sprint(site.Block().Index)
 			loops[k]++
